@@ -186,7 +186,7 @@ def oracle_pdhg(case):
     desc = case["desc"]
     C = G.build_operator(desc)
     kw = dict(ratio=case["ratio"], maxiter=case["maxiter"], key=G.make_key(case.get("key")), **_factor_arg(case["factor"]))
-    if desc["kind"] == "jacobian":
+    if desc["kind"] == "jacobian" and not case.get("default_point"):
         kw["x"] = snp.array(np.asarray(desc["u"], dtype=np.float64))
     r = _impl(lambda: PDHG.estimate_parameters(C, **kw))
     if case["maxiter"] < 1:
@@ -305,7 +305,7 @@ def oracle_diagnorm(case):
     want = float(np.linalg.norm(np.diag(_full_diag(case)), o))
     if got is None:
         return {"why": "norm did not return a scalar", "ord": case["ord"], "got": str(r[1]), "numpy": want}
-    if not common.close(got, want, 16, 1e-9):
+    if not _rel(got, want, 16, 1e-9):
         return {"why": "closed form differs from the matrix norm of the operator's matrix", "ord": case["ord"], "got": got, "numpy": want,
                 "diagonal": case.get("dre") or case.get("blocks"), "input_shape": case.get("input_shape")}
     return None
@@ -346,7 +346,7 @@ def oracle_sidnorm(case):
     got = _scalar(r[1])
     if got is None:
         return {"why": "norm did not return a scalar", "ord": case["ord"], "got": str(r[1]), "numpy": want}
-    if not common.close(got, want, 16, 1e-9):
+    if not _rel(got, want, 16, 1e-9):
         return {"why": "closed form differs from the matrix norm of c*I", "ord": case["ord"], "got": got, "numpy": want}
     return None
 
@@ -434,9 +434,69 @@ def check_nilpotent(ctx, model):
         mu, v = power_iteration(B, maxiter=k, key=None)
         m = model.call("power", B=rows(Bm), v0=fs2b(v0), maxiter=k)
         ctx.count("branch:zero-exit-in-loop" if k >= 2 else "branch:no-exit")
-        if not (common.close(float(np.asarray(mu)), b2f(m["mu"]), 8, 1e-9) and common.allclose(np.asarray(v), common.b2fs(m["v"]), 8, 1e-9)):
+        if not (_rel(float(np.asarray(mu)), b2f(m["mu"]), 8, 1e-9) and common.allclose(np.asarray(v), common.b2fs(m["v"]), 8, 1e-9)):
             ctx.disagree("estim.power", {"what": "power-nilpotent", "budget": k}, {"mu": float(np.asarray(mu)), "v": np.asarray(v).tolist()},
                          {"mu": b2f(m["mu"]), "v": common.b2fs(m["v"])})
+
+
+NONFINITE = [
+    [[float("nan")]],
+    [[float("inf")]],
+    [[1e200]],                       # A^H A overflows to inf
+    [[float("nan"), 0.0], [0.0, 1.0]],
+    [[1.0, float("nan")], [2.0, 1.0]],
+]
+
+
+def oracle_nonfinite(case):
+    """an operator with a NaN / infinite entry is not the zero operator: the estimate must not be 0
+    (the zero exit tests `normAv == 0.0`, which is false for a NaN norm)"""
+    import scico.numpy as snp
+    from scico.linop import MatrixOperator, operator_norm
+
+    A = MatrixOperator(snp.array(np.asarray(case["A"], dtype=np.float64)))
+    for k in case["budgets"]:
+        r = _impl(lambda: operator_norm(A, maxiter=k, key=G.make_key(case.get("key"))))
+        if r[0] == "err":
+            return {"why": "operator_norm raised on an operator with non-finite entries", "maxiter": k, "error": r[2]}
+        est = _scalar(r[1])
+        if est == 0.0:
+            return {"why": "norm estimate is exactly 0 for an operator with NaN/inf entries (a NaN norm taken for the zero operator); "
+                           "estimate_parameters would return tau = sigma = inf, mu = nu = 0", "maxiter": k, "A": str(case["A"]), "estimate": est}
+    return None
+
+
+ORACLES["nonfinite"] = oracle_nonfinite
+
+
+def check_nonfinite(ctx, model):
+    """NaN / inf / overflowing operators: every IEEE branch of the loop (NaN norm is *not* the zero exit) at `Float`
+    against the real arithmetic; only operators whose dense products are insensitive to the order of evaluation"""
+    import scico.numpy as snp
+    from scico.linop import MatrixOperator, operator_norm, power_iteration
+
+    for Am in NONFINITE:
+        M = np.asarray(Am, dtype=np.float64)
+        A = MatrixOperator(snp.array(M))
+        v0 = G.realview_vec(G.start_vector(A, 1))
+        case0 = {"what": "nonfinite", "A": [[repr(x) for x in row] for row in Am], "key": 1, "budgets": [1, 2, 3, 5]}
+        case0["A"] = M.tolist()
+        for k in case0["budgets"]:
+            ctx.case({"what": "nonfinite", "A": str(Am), "budget": k}, f"nonfinite:{Am}:{k}")
+            ctx.count("op:non-finite")
+            r = _impl(lambda: operator_norm(A, maxiter=k, key=G.make_key(1)))
+            with np.errstate(all="ignore"):
+                m = _model(model, "opnorm", A=rows(M), v0=fs2b(v0), maxiter=int(k))
+            if r[0] == "err" or m[0] == "err":
+                ctx.disagree("estim.opnorm.reject", {**case0, "budget": k}, list(map(str, r)), list(map(str, m)), oracle=oracle)
+                continue
+            est, mest = _scalar(r[1]), b2f(m[1])
+            ctx.count("nonfinite:" + ("nan" if math.isnan(mest) else "inf" if math.isinf(mest) else "finite"))
+            if est is None or not _rel(est, mest, 8 * k):
+                ctx.disagree("estim.opnorm", {**case0, "budget": k}, est if est is not None else str(r[1]), mest, oracle=oracle)
+        bad = oracle_nonfinite(case0)
+        if bad is not None:
+            ctx.disagree("estim.opnorm.property", case0, bad, None, oracle=oracle)
 
 
 def check_pdhg(ctx, model, case):
@@ -446,8 +506,10 @@ def check_pdhg(ctx, model, case):
     desc = case["desc"]
     C = G.build_operator(desc)
     kw = dict(ratio=case["ratio"], maxiter=case["maxiter"], key=G.make_key(case.get("key")), **_factor_arg(case["factor"]))
-    if desc["kind"] == "jacobian":
+    if desc["kind"] == "jacobian" and not case.get("default_point"):
         kw["x"] = snp.array(np.asarray(desc["u"], dtype=np.float64))
+    elif desc["kind"] == "jacobian":
+        ctx.count("pdhg:jacobian-at-default-x")
     r = _impl(lambda: PDHG.estimate_parameters(C, **kw))
     J = G.linear_of(desc)
     M = G.dense(desc)
@@ -632,7 +694,7 @@ def check_diagnorm(ctx, model, case):
             ctx.disagree("estim.diagnorm.reject", case, list(map(str, r)), list(map(str, m)), oracle=oracle)
         return
     got = _scalar(r[1])
-    if got is None or not common.close(got, b2f(m[1]), 16, 1e-9):
+    if got is None or not _rel(got, b2f(m[1]), 16, 1e-9):
         ctx.disagree("estim.diagnorm", case, got if got is not None else str(r[1]), b2f(m[1]), oracle=oracle)
 
 
@@ -650,7 +712,7 @@ def check_sidnorm(ctx, model, case):
             ctx.disagree("estim.sidnorm.reject", case, list(map(str, r)), list(map(str, m)), oracle=oracle)
         return
     got = _scalar(r[1])
-    if got is None or not common.close(got, b2f(m[1]), 16, 1e-9):
+    if got is None or not _rel(got, b2f(m[1]), 16, 1e-9):
         ctx.disagree("estim.sidnorm", case, got if got is not None else str(r[1]), b2f(m[1]), oracle=oracle)
 
 
@@ -666,12 +728,12 @@ def check_matnorm(ctx, model, M):
         ctx.count(f"matnorm:ord={ord_wire(o)}")
         got = _scalar(A.norm(o))
         want = float(np.linalg.norm(M, o))
-        if not common.close(got, want, 16, 1e-9):
+        if not _rel(got, want, 16, 1e-9):
             ctx.violation({"kind": "failing-input", "case": case, "failing": {"why": "MatrixOperator.norm differs from numpy's matrix norm", "got": got, "numpy": want}}, True,
                           "estim.matnorm: property fails on the implementation")
             continue
         mm = model.call("matnorm", ord=ord_wire(o), rows=rows(np.abs(M)))
-        if mm is not None and not common.close(got, b2f(mm), 16, 1e-9):
+        if mm is not None and not _rel(got, b2f(mm), 16, 1e-9):
             ctx.disagree("estim.matnorm", case, got, b2f(mm))
         if mm is None:
             ctx.count("matnorm:svd-orders(numpy only)")
@@ -710,6 +772,15 @@ def diag_cases(rng, n_random):
         elif rng.integers(0, 3) == 0:
             c = {**c, "form": "broadcast", "input_shape": [int(rng.integers(2, 4)), n]}
         base.append(c)
+    # the closed forms are scale-equivariant: the same diagonals times 2^-40 / 2^40 (compared relatively)
+    for b in list(base[:6]) + list(base[9:12]):
+        for k in (-40, 40):
+            sb = dict(b)
+            sb["dre"] = (np.asarray(b["dre"]) * 2.0 ** k).tolist()
+            if b.get("dim") is not None:
+                sb["dim"] = (np.asarray(b["dim"]) * 2.0 ** k).tolist()
+            sb["scale_k"] = k
+            base.append(sb)
     for b in base:
         for o in ords:
             out.append({"what": "diagnorm", **b, "ord": o})
@@ -727,6 +798,8 @@ def sid_cases(rng, n_random):
     ]
     for _ in range(n_random):
         base.append({"cre": float(common.dyadic(rng, (), bits=2, scale=4.0)), "shape": [int(rng.integers(1, 6))]})
+    base.append({"cre": -3.0 * 2.0 ** -40, "shape": [3], "scale_k": -40})
+    base.append({"cre": 1.5 * 2.0 ** 40, "cim": -2.0 * 2.0 ** 40, "shape": [2, 2], "scale_k": 40})
     for b in base:
         for o in ords:
             out.append({"what": "sidnorm", **b, "ord": o})
@@ -754,6 +827,10 @@ def run_case(ctx, model, case):
         r = oracle_nlpadmm(case)
         if r is not None:
             ctx.disagree("estim.nlpadmm.property", case, r, None, oracle=oracle)
+    elif w == "nonfinite":
+        r = oracle_nonfinite(case)
+        if r is not None:
+            ctx.disagree("estim.opnorm.property", case, r, None, oracle=oracle)
     elif w == "diagnorm":
         check_diagnorm(ctx, model, case)
     elif w == "sidnorm":
@@ -779,7 +856,13 @@ def correspond(ctx, model):
     ]
     for desc in fixed:
         check_estimates(ctx, model, desc, None, ladder)
+    # separated largest singular value (ratio 1/4, 1/2 and 3/4): the estimate must have converged at budget 60/200
+    for A_, top in (([[4.0, 0.0, 0.0], [0.0, 1.0, 0.0], [0.0, 0.0, 0.5]], 60), ([[0.0, -2.0], [1.0, 0.0]], 60),
+                    ([[3.0, 0.0], [0.0, 4.0], [0.0, 0.0]], 200)):
+        for key in (None, 1):
+            check_estimates(ctx, model, {"kind": "matrix-real", "A": A_, "flavour": "gapped"}, key, ladder + [top], converged_check=True)
     check_nilpotent(ctx, model)
+    check_nonfinite(ctx, model)
     for i in range(ctx.n(60, 250)):
         desc = G.gen_operator(rng)
         key = [None, 0, 1, 2, 3][int(rng.integers(0, 5))]
@@ -816,7 +899,12 @@ def correspond(ctx, model):
     # -- estimators ---------------------------------------------------------------------
     for i in range(ctx.n(90, 500)):
         desc = G.gen_operator(rng)
-        case = {"what": "pdhg", "desc": desc, "ratio": float([1.0, 0.5, 2.0, 4.0, 0.125][int(rng.integers(0, 5))]),
+        dflt = False
+        if desc["kind"] == "jacobian" and rng.integers(0, 3) == 0:
+            # x=None: the Jacobian is documented to be taken at an array of zeros
+            desc = {**desc, "u": [0.0] * len(desc["u"])}
+            dflt = True
+        case = {"what": "pdhg", "desc": desc, "default_point": dflt, "ratio": float([1.0, 0.5, 2.0, 4.0, 0.125][int(rng.integers(0, 5))]),
                 "factor": ["default", "default", None, 1.0, 1.5, 2.0][int(rng.integers(0, 6))],
                 "maxiter": int([0, 1, 2, 5, 20, 40][int(rng.integers(0, 6))]), "key": [None, 1, 2][int(rng.integers(0, 3))]}
         check_pdhg(ctx, model, case)
